@@ -478,7 +478,8 @@ struct Acc {
     maxima: BTreeMap<String, u64>,
     counters: BTreeMap<String, u64>,
     fails: BTreeMap<String, FailAgg>,
-    samples: Vec<Value>,
+    /// keyed by the literal input; the smallest keys are kept (independent of merge order)
+    samples: BTreeMap<String, Value>,
 }
 
 fn keep_smallest(s: &mut BTreeSet<(usize, String)>, n: usize) {
@@ -554,10 +555,10 @@ impl Acc {
                 }
             }
         }
-        for s in o.samples {
-            if self.samples.len() < 6 {
-                self.samples.push(s);
-            }
+        self.samples.extend(o.samples);
+        while self.samples.len() > 6 {
+            let last = self.samples.keys().next_back().cloned().unwrap();
+            self.samples.remove(&last);
         }
     }
 }
@@ -832,8 +833,18 @@ fn exec_case(u: &UnitCtx, seed: &[u8], acc: &mut Acc) {
                             }
                         }
                     }
-                    if acc.samples.len() < 2 && !vals.is_empty() && nodes_of(&vals) > 2 {
-                        acc.samples.push(json!({"types": u.lit.types, "config": u.lit.config_name, "seed": hex::encode(seed), "generated": vals_text(&vals)}));
+                    if seed.len() == 3 && u.menv.0.len() == 1 && nodes_of(&vals) > 4 {
+                        let k = format!("{}|{}|{}", u.lit.types, u.lit.config_name, hex::encode(seed));
+                        if acc.samples.len() < 6 || acc.samples.keys().next_back().is_some_and(|l| k < *l) {
+                            acc.samples.insert(
+                                k,
+                                json!({"env": u.lit.env, "types": u.lit.types, "config": u.lit.config_name, "seed": hex::encode(seed), "generated": vals_text(&vals)}),
+                            );
+                            while acc.samples.len() > 6 {
+                                let last = acc.samples.keys().next_back().cloned().unwrap();
+                                acc.samples.remove(&last);
+                            }
+                        }
                     }
                 }
             }
@@ -1348,7 +1359,7 @@ fn main() {
     rep.count("runs_returning_Err", acc.err);
     rep.count("runs_failing_the_oracle", acc.failed);
     rep.count("worker_processes_spawned", CHILD_SPAWNS.load(Ordering::Relaxed));
-    for s in acc.samples.drain(..) {
+    for (_, s) in std::mem::take(&mut acc.samples) {
         rep.sample(s);
     }
     rep.notes.extend(sc.notes.clone());
